@@ -323,6 +323,23 @@ static Arr sym(int s, int rot, const std::string& name) {
     (void)t;
 }
 
+// case "T <n> <a> <b> <c> <fmt>": arrays of EQUAL element count n and types a, b, c (c = -1: pair) next to each other; types
+// with the same element width have different block layouts (DOUB 1000 per block, CHAR/C008 105), so nothing may be shared
+// between neighbours because "count and width agree"
+static Arr tsym(int ty, int n, const std::string& name) {
+    switch (ty) {
+    case 0: return mk(T_INTE, name, n, 1);
+    case 1: return mk(T_REAL, name, n, 2);
+    case 2: return mk(T_DOUB, name, n, 3);
+    case 3: return mk(T_LOGI, name, n, 4);
+    case 4: return mk(T_CHAR, name, n, 5);
+    case 5: return mk(T_C0NN, name, n, 6, 8);       // C008: same width as CHAR and DOUB
+    case 6: return mk(T_C0NN, name, n, 7, 4);       // C004: same width as INTE/REAL/LOGI
+    case 7: return mk(T_MESS, name, 0, 0);
+    default: return mk(T_INTE, name, 0, 0);         // zero-length array
+    }
+}
+
 // case "P <fmt> <ops...>": fixed-width CHAR elements (PaddedOutputString<8>, the type the restart/summary writers keep their
 // name buffers in).  One 3-element vector; every sequence of <= 4 operations over {element 1 := value v (7 values incl. empty,
 // 8 characters, over-long), element 1 := copy of element 0, whole vector rebuilt} ; after EVERY operation the vector is
@@ -397,6 +414,7 @@ static void do_case(const std::string& c) {
     char k; int a, b, cc, d, e;
     if (std::sscanf(c.c_str(), "%c %d %d %d %d %d", &k, &a, &b, &cc, &d, &e) < 3) throw std::runtime_error("bad case " + c);
     R->current(c);
+    if (k == 'T') { std::vector<Arr> v; v.push_back(tsym(b, a, "FIRST")); v.push_back(tsym(cc, a, "SECOND")); if (d >= 0) v.push_back(tsym(d, a, "THIRD")); run_case(v, e, false, "equal-count", c); return; }
     if (k == 'Q') { std::istringstream is(c.substr(1)); int fmt; is >> fmt; std::vector<int> ops; int x; while (is >> x) ops.push_back(x); reader_case(fmt, ops, c); return; }
     if (k == 'P') { std::istringstream is(c.substr(1)); int fmt; is >> fmt; std::vector<int> ops; int x; while (is >> x) ops.push_back(x); padded_case(fmt, ops, c); return; }
     if (k == 'L') run_case(len_case(a, b), cc, d, "", c);
@@ -416,7 +434,7 @@ int main(int argc, char** argv) {
     const char* sc = std::getenv("VERIF_SCRATCH");
     g_dir = std::string(sc ? sc : "/tmp") + "/C07." + std::to_string(getpid());
     std::string cmd = "mkdir -p " + g_dir; if (std::system(cmd.c_str())) return 2;
-    run.rule = "every array length 0..2002 (strings 0..212) x {INTE,REAL,DOUB,LOGI,CHAR,C0nn,MESS} x {formatted,unformatted} x {ECL,IX} with extremes rotated over positions; all sequences of <=3 arrays over a 12-symbol (type,length-class) alphabet; every sequence of <= 3 (thorough 4) assignments to a reused PaddedOutputString<8> element (7 values incl. empty/over-long, copy, rebuild) written as a CHAR array after every step; every sequence of <= 3 (thorough 4) reader operations {loadData all / by name / by index / by index list in both orders, get by index / name, clearData} on one EclFile object followed by a sweep over all arrays; distinct = distinct file byte strings";
+    run.rule = "every array length 0..2002 (strings 0..212) x {INTE,REAL,DOUB,LOGI,CHAR,C0nn,MESS} x {formatted,unformatted} x {ECL,IX} with extremes rotated over positions; all sequences of <=3 arrays over a 12-symbol (type,length-class) alphabet; all pairs (and triples around a MESS / zero-length array; thorough: all triples) of 9 array kinds with EQUAL element count in {1,105,106,1000,1001}; every sequence of <= 3 (thorough 4) assignments to a reused PaddedOutputString<8> element (7 values incl. empty/over-long, copy, rebuild) written as a CHAR array after every step; every sequence of <= 3 (thorough 4) reader operations {loadData all / by name / by index / by index list in both orders, get by index / name, clearData} on one EclFile object followed by a sweep over all arrays; distinct = distinct file byte strings";
     run.assumptions = {"reference codec in the harness written from the published Eclipse layout (not from EclIOdata.hpp)", "values outside the extremes alphabet not covered", "lengths >= 2^31 only through size arithmetic (thorough)"};
     if (!run.replay_path.empty()) { do_case(run.replay_path); std::string rm = "rm -rf " + g_dir; std::system(rm.c_str()); return run.finish(); }
 
@@ -444,6 +462,11 @@ int main(int argc, char** argv) {
             for (int o = 0; o < 9; ++o) { ops.push_back(o); rec(); ops.pop_back(); }
         };
         rec();
+    }
+    // neighbours of equal element count
+    for (int n : {1, 105, 106, 1000, 1001}) for (int a = 0; a < 9; ++a) for (int b = 0; b < 9; ++b) for (int c3 = -1; c3 < 9; ++c3) {
+        if (c3 >= 0 && !(b >= 7 || run.thorough())) continue;       // quick: triples only with a MESS / zero-length array in the middle
+        for (int fmt = 0; fmt < 2; ++fmt) { if (!run.mine()) continue; do_case("T " + std::to_string(n) + " " + std::to_string(a) + " " + std::to_string(b) + " " + std::to_string(c3) + " " + std::to_string(fmt)); }
     }
     // reader operation sequences
     {
